@@ -227,6 +227,9 @@ def rand_scenario(
         "fault": None,
         # what kind of object the operation's errors are (drawn last: the scenarios generated before this existed keep their shape)
         "exc_family": rand_exc_family(rng),
+        # what kind of object the caller's callbacks are: plain functions, or callable objects that are empty (falsy) and unhashable
+        "cb_shape": "empty" if rng.random() < 0.2 else "plain",
+        "hook_edits_tags": rng.random() < 0.25,  # the metric hook writes a label into the tags dict it receives
     }
 
 
